@@ -533,8 +533,10 @@ func exploreItem(bc *bCtx, it bItem, maxDepth int, failInj bool) {
 		r.Outcome("b: uninterrupted run fails")
 		key := "b/uninterrupted-run-fails: " + errClass(o.newErr, o.runErr) + " [" + failingMigration(o.runErr) + "; history: " + historyKinds(st.trace) + "]"
 		if o.runErr != nil && failingMigration(o.runErr) == "historyprunner" &&
-			contains(o.runErr.Error(), " history at block") && contains(o.runErr.Error(), "key not found") {
-			// one defect class on the unchanged tree (see report): whatever interruption left the database there
+			contains(o.runErr.Error(), " history at block") && contains(o.runErr.Error(), "key not found") &&
+			(contains(st.trace, "crash-after-commit") || contains(st.trace, inFail)) {
+			// one defect class on the unchanged tree (known finding): an ABRUPT interruption (crash / failed commit) left
+			// the database there; the same failure after graceful cancellations only keeps its own key and is reported
 			key = "b/restart-fails: historyprunner cannot resume after a crash or failed commit in its restore phase (history or scratch already wiped, progress only persisted on graceful cancel)"
 		}
 		r.Violate(key, map[string]any{"interruptions_before": historyKinds(st.trace),"shape": sp.Name, "tx_per_block": sp.Shape, "trace": tr, "newRunnerErr": fmt.Sprint(o.newErr), "runErr": fmt.Sprint(o.runErr)})
